@@ -355,6 +355,15 @@ func (vc *FuncVC) applyContract(st *State, reach Term, ins *ssa.Call, callee *ss
 	} else {
 		vc.contractedUsed[name] = true
 	}
+	if vc.discovery == 0 {
+		inLoop := false
+		for _, body := range vc.loopBody {
+			if body[ins.Block()] {
+				inLoop = true
+			}
+		}
+		vc.callLog = append(vc.callLog, callRec{name, reach, inLoop})
+	}
 	// bind parameters
 	vars := map[string]SVal{}
 	sig := callee.Signature
@@ -834,6 +843,53 @@ func (vc *FuncVC) execReturn(st *State, reach Term, ins *ssa.Return) {
 	if vc.fc.Delegate != "" {
 		vc.delegationChecks(st, reach, k, ins.Pos())
 	}
+	vc.bridgeChecks(reach, k, ins.Pos())
+}
+
+// bridgeChecks (class T, C16): a method (*BigInt).M of layer 1 for which math/big.(*Int).M is under an (assumed)
+// contract is a bridge to "the math/big.Int method of the same name". On every return whose path materialised a
+// big.Int (called inner, innerOrNil, innerOrAlias or innerOrNilOrAlias) that method was called exactly once; and the
+// only other math/big.(*Int) methods the body may call are those listed in its bridge-also clause.
+func (vc *FuncVC) bridgeChecks(reach Term, k int, pos token.Pos) {
+	if !vc.L.layer1 || !strings.HasPrefix(vc.name, "(*BigInt).") {
+		return
+	}
+	want := "math/big.(*Int)." + strings.TrimPrefix(vc.name, "(*BigInt).")
+	if vc.W.spec.Funcs[want] == nil {
+		return
+	}
+	tags := vc.propTags("C16")
+	allowed := map[string]bool{want: true}
+	for _, a := range vc.fc.BridgeAlso {
+		allowed[a] = true
+	}
+	marker := map[string]bool{"(*BigInt).inner": true, "(*BigInt).innerOrNil": true, "(*BigInt).innerOrAlias": true, "(*BigInt).innerOrNilOrAlias": true}
+	var slow, same []Term
+	var foreign []string
+	loopy := false
+	for _, c := range vc.callLog {
+		switch {
+		case marker[c.name]:
+			slow = append(slow, c.reach)
+		case c.name == want:
+			same = append(same, Ite(c.reach, IntLit(1), IntLit(0)))
+			loopy = loopy || c.inLoop
+		case strings.HasPrefix(c.name, "math/big.(*Int).") && !allowed[c.name]:
+			foreign = append(foreign, c.name)
+		}
+	}
+	if k == 1 || len(foreign) > 0 {
+		sort.Strings(foreign)
+		vc.oblige("T", fmt.Sprintf("bridge/only-same-name/ret%d", k), reach, BoolLit(len(foreign) == 0 && !loopy), tags, pos, "calls no math/big.(*Int) method other than "+want+" (and its bridge-also list): "+strings.Join(foreign, ", "))
+	}
+	if len(slow) == 0 {
+		return
+	}
+	cnt := IntLit(0)
+	for _, t := range same {
+		cnt = Add(cnt, t)
+	}
+	vc.oblige("T", fmt.Sprintf("bridge/same-name-once/ret%d", k), reach, Implies(Or(slow...), Eq(cnt, IntLit(1))), tags, pos, "a path that materialises a big.Int calls "+want+" exactly once")
 }
 
 // frameChecks: every pre-existing location outside the assigns set is unchanged (class F1).
